@@ -237,6 +237,43 @@ pub fn run(args: &Args) {
     } else {
         None
     };
+    // phase 4: names outside the usual shapes, one and two entries each. Variable names are byte
+    // strings for the layer environment (empty, with '=', ...), process names are arbitrary strings
+    // (with '/', trailing '/', './'): entries take effect under exactly the name they were given
+    let mut odd_evals = 0u64;
+    {
+        use vh::envref::{BEHS, plain_of, real_env, real_plain, ref_apply};
+        let odd_vars: [&[u8]; 4] = [b"", b"=X", b"A=B", b"X"];
+        let odd_procs = ["jobs/web", "web/", "./web", "/web", "web"];
+        let mut envs: Vec<AbsEnv> = Vec::new();
+        for b in BEHS {
+            for v in odd_vars {
+                envs.push([((Sc::All, b, v.to_vec()), b"v".to_vec())].into_iter().collect());
+                envs.push([((Sc::Build, b, v.to_vec()), b"v".to_vec()), ((Sc::All, Beh::Default, v.to_vec()), b"d".to_vec())].into_iter().collect());
+            }
+            for p in odd_procs {
+                envs.push([((Sc::Process(p.into()), b, b"X".to_vec()), b"v".to_vec())].into_iter().collect());
+                envs.push([((Sc::Process(p.into()), b, b"X".to_vec()), b"v".to_vec()), ((Sc::Process("web".into()), Beh::Override, b"X".to_vec()), b"w".to_vec())].into_iter().collect());
+            }
+        }
+        let mut queries = vec![Sc::All, Sc::Build, Sc::Launch];
+        queries.extend(odd_procs.iter().map(|p| Sc::Process((*p).into())));
+        let starts: Vec<PlainEnv> = vec![PlainEnv::new(), odd_vars.iter().map(|v| (v.to_vec(), b"o".to_vec())).collect()];
+        for abs in &envs {
+            let real = real_env(abs);
+            for q in &queries {
+                for st in &starts {
+                    odd_evals += 1;
+                    let got = plain_of(&real.apply(q.real(), &real_plain(st)));
+                    let want = ref_apply(abs, q, st);
+                    if got != want {
+                        rep.violation(&format!("odd-names:{}", classify(abs, q, &got, &want)), format!("env {} applied for scope {q:?} to {} gives {} but the CNB rules give {}", fmt_abs(abs), fmt_plain(st), fmt_plain(&got), fmt_plain(&want)), json!({"env": abs_to_json(abs), "query": format!("{q:?}"), "start": "see text"}));
+                    }
+                }
+            }
+        }
+    }
+    rep.cov("odd_name_evaluations", odd_evals);
     let (r3s, r3t) = r3.as_ref().map(|r| (r.states, r.transitions)).unwrap_or((0, 0));
     let evals_per_state = (query_scopes().len() * start_envs().len()) as u64;
     rep.cov("states", r.states + r2.states + r3s);
@@ -250,7 +287,7 @@ pub fn run(args: &Args) {
     rep.cov("evaluations", (r.states + r2.states + r3s) * evals_per_state);
     // non-trivial = states with at least one entry (every one of them has >= 1 query whose result differs from the start env or tests non-interference)
     rep.cov("distinct_nontrivial", r.states + r2.states + r3s - 2);
-    rep.cov("rule", "states = distinct abstract maps (scope,behaviour,name)->value reached by real LayerEnv::insert sequences (BFS from empty to the depth bound; plus all 3x(2^5x2^5-1) behaviour stacks on one name and one further insert); each state is evaluated for 5 query scopes x 4 starting environments against the reference rules; non-trivial = non-empty environment");
+    rep.cov("rule", "states = distinct abstract maps (scope,behaviour,name)->value reached by real LayerEnv::insert sequences (BFS from empty to the depth bound; plus all 3x(2^5x2^5-1) behaviour stacks on one name and one further insert); each state is evaluated for 5 query scopes x 4 starting environments against the reference rules; plus one- and two-entry environments over variable names {empty, =X, A=B} and process names {jobs/web, web/, ./web, /web} x 5 behaviours x 8 query scopes x 2 starting environments; non-trivial = non-empty environment");
     rep.cov("bound", json!({"insert_depth": depth, "alphabet": "4 scopes x 5 behaviours x names {X,PATH} x values {'','x ' (ends in a space),<0xff>y} = 120 inserts", "stacks": "3 x 1023 init states, depth 1", "query": "5 scopes (process types named `launch` and, unknown, `all`) x 4 start envs (unset, empty, set, set+others)"}));
     let capped = r.cap_hit.clone().or(r2.cap_hit.clone()).or(r3.as_ref().and_then(|x| x.cap_hit.clone()));
     rep.cov("exhaustive", capped.is_none());
